@@ -10,7 +10,9 @@ cd /repo || exit 2
 if [ -n "$(git status --porcelain)" ]; then echo "/repo not clean"; exit 2; fi
 if ! git apply --check "$patch" 2>/dev/null; then echo "PATCH DOES NOT APPLY: $patch"; exit 3; fi
 git apply "$patch"
-trap 'git -C /repo checkout -- . ; git -C /repo clean -fdq' EXIT
+# evidence written while a seeded change is applied must never replace the real evidence
+rm -rf /verif/.work/evidence.keep; cp -r /verif/evidence /verif/.work/evidence.keep
+trap 'git -C /repo checkout -- . ; git -C /repo clean -fdq; rm -rf /verif/evidence; mv /verif/.work/evidence.keep /verif/evidence' EXIT
 if ! go build ./... 2>/tmp/seed_build.err; then echo "DOES NOT COMPILE"; head -5 /tmp/seed_build.err; exit 3; fi
 b=$(/verif/baseline.sh); echo "suite with change: $b"
 for p in "$@"; do
